@@ -307,7 +307,7 @@ def gen_s1(run, count, offset=None, stride=41868361):
     return pk
 
 
-def accepted_inputs(run, n_s1, n_honest, n_struct, pointer_free=False):
+def accepted_inputs(run, n_s1, n_honest, n_struct, pointer_free=False, adversarial=True):
     sd = vlib.seed()
     pk = gen_s1(run, n_s1)
     if pointer_free:
@@ -316,6 +316,10 @@ def accepted_inputs(run, n_s1, n_honest, n_struct, pointer_free=False):
         pk += vlib.vdrive_gen("honest", sd + 11, n_honest)
         pk += vlib.vdrive_gen("structured", sd + 12, n_struct)
     pk += vlib.vdrive_gen("boundary", 0, 0)
+    # the adversarial families at a small scale: the ones the parser accepts exercise the readers and the
+    # transformations at the caps (16 pointers, 255-byte names, dense options) as well
+    if adversarial:
+        pk += [p for p in vlib.vdrive_gen("adversarial", sd + 13, 40) if len(p) < 12000]
     pk += seed_packets()
     return dedupe(pk)
 
@@ -527,7 +531,7 @@ def c07(run):
                         "compression choices of the output and the letter case of names are not compared"]
     rename_models(run)
     n = (2500, 1500, 1000) if quick(run) else (50000, 30000, 20000)
-    pk = accepted_inputs(run, *n) + vlib.vdrive_gen("compressfam", 0, 0)
+    pk = accepted_inputs(run, *n, adversarial=False) + vlib.vdrive_gen("compressfam", 0, 0)
     per = 3
     scen = []
     sd = vlib.seed()
@@ -1170,7 +1174,7 @@ def c16(run):
         scen.append(json.dumps({"do": "threads", "n": int(n), "program": prog, "order": order, "kinds": [[0, 1]]}, separators=(",", ":")))
         scen.append(json.dumps({"do": "threads", "n": int(n), "program": prog, "order": order, "kinds": [[0, 1], [1, 0], [0, 2]]}, separators=(",", ":")))
     # thread churn: one thread fails and keeps its handle while many other threads fail, then everybody reads
-    for n in (70, 130, 300):
+    for n in (70, 130, 300, 4200):
         order = list(range(1, n + 1)) + list(range(1, n + 1))
         scen.append(json.dumps({"do": "threads", "n": n, "program": ["F", "R"], "order": order}, separators=(",", ":")))
         order = list(range(1, n + 1)) + [1] + list(range(n, 1, -1))
